@@ -70,6 +70,11 @@ def stmt_failure(cfg):
     return None
 
 
+# layouts whose bin width is not exactly representable (np.arange / linspace end-point effects), always checked first
+FIXED_CFGS = [dict(centerX=20.0, centerY=19.0, imageSizeX=44, imageSizeY=41, radius=r, radius_inner=ri, n_bins=n)
+              for (r, ri, n) in ((9.0, 0.5, 7), (15.0, 0.0, 13), (17.0, 0.0, 7), (17.0, 0.0, 14), (10.0, 0.75, 9), (19.0, 1.0, 11))]
+
+
 def rand_cfg(rng):
     sx, sy = int(rng.integers(1, 61)), int(rng.integers(1, 61))
     mode = int(rng.integers(0, 4))
@@ -156,7 +161,7 @@ def run(ctx):
     # (S) the statement on the implementation
     nS = ctx.n(150, 3000)
     for k in range(nS):
-        cfg = rand_cfg(rng)
+        cfg = dict(FIXED_CFGS[k]) if k < len(FIXED_CFGS) else rand_cfg(rng)
         fail = stmt_failure(cfg)
         ctx.count(1, key=json.dumps(cfg, sort_keys=True))
         if fail:
